@@ -724,6 +724,13 @@ func (m *ValidatorsStat) DecodeRLP(s *rlp.Stream) error {
 	if err := s.Decode(&data); err != nil {
 		return err
 	}
+	// the receiver may be a zero value (allocated by the rlp package itself)
+	if m.Kinds == nil {
+		m.Kinds = make(map[params.ValidatorKind]*ValKindStat)
+	}
+	if m.Roles == nil {
+		m.Roles = make(map[params.ValidatorRole]*ValKindStat)
+	}
 
 	m.Kinds[params.KindValidator] = data.KindValidator
 	m.Kinds[params.KindChamber] = data.KindChamber
